@@ -742,9 +742,10 @@ def to_update_call(tokens):
 def to_query(tokens):
     output = tokens["query"][0]
     try:
-        output["with"] = tokens["with"]
-        output["with_recursive"] = tokens["with_recursive"]
-        output["using"] = tokens["using"]
+        for clause in ("with", "with_recursive", "using"):
+            # A PARENTHESISED QUERY COMES THROUGH HERE AGAIN: DO NOT REPLACE ITS OWN CLAUSE WITH NOTHING
+            if tokens[clause] or not output.get(clause):
+                output[clause] = tokens[clause]
 
         return output
     except Exception as cause:
